@@ -50,6 +50,10 @@ MUTANTS = [
  ("mt-worker-image-y", "toasty/multi_tan.py", "            if tile_parity_sign == 1:\n                image_y = image.height - (image_y + height)\n                tile_y = 256 - (tile_y + height)\n\n            ix_idx", "            if tile_parity_sign == 1:\n                image_y = image.height - (image_y + height) - (1 if image_y else 0)\n                tile_y = 256 - (tile_y + height)\n\n            ix_idx", ["C09"], []),
  ("mt-crpix-from-first", "toasty/multi_tan.py", "        ref_headers[\"CRPIX1\"] = this_crpix1 + 1 + (mtdesc.crxmin - global_crxmin)", "        ref_headers[\"CRPIX1\"] = this_crpix1 + 1 + (self._descs[0].crxmin - global_crxmin)", ["C09"], []),
  ("lxy-swapped", "toasty/pyramid.py", "            \"L{}X{}Y{}.{}\".format(level, ix, iy, format or self._default_format),", "            \"L{}X{}Y{}.{}\".format(level, iy, ix, format or self._default_format),", ["C17"], ["C02"]),
+ ("sampler-flip-always", "toasty/toast.py", "        if self._invert_into_tiles:\n            sampled_data = sampled_data[::-1]", "        if True:\n            sampled_data = sampled_data[::-1]", ["C06"], []),
+ ("sampler-level0-quadrants-swapped", "toasty/toast.py", "        y_idx = slice(128 * tile.pos.y, 128 * (tile.pos.y + 1))\n        x_idx = slice(128 * tile.pos.x, 128 * (tile.pos.x + 1))", "        y_idx = slice(128 * tile.pos.x, 128 * (tile.pos.x + 1))\n        x_idx = slice(128 * tile.pos.y, 128 * (tile.pos.y + 1))", ["C06"], []),
+ ("sampler-update-clobbers", "toasty/toast.py", "        if self._clobber:\n            self._pio.write_image", "        if True:\n            self._pio.write_image", ["C06"], []),
+ ("sampler-wrong-tile-coords", "toasty/toast.py", "            lon, lat = toast_tile_get_coords(tile)\n        sampled_data", "            lon, lat = toast_tile_get_coords(tile)\n            lon, lat = lon.T, lat.T\n        sampled_data", ["C06"], []),
  ("sampler-no-flip", "toasty/toast.py", "sampled_data = sampled_data[::-1]", "sampled_data = sampled_data", ["C06"], ["C03"]),
 ]
 
